@@ -1071,17 +1071,20 @@ func (in *inst) cutHeader(n *vnode, l *loopInfo, edges []*vedge, conds []string)
 	// havoc
 	pre := st.clone()
 	keys, anything := in.loopWrites(l)
+	var ks []string
+	for k := range keys {
+		ks = append(ks, k)
+	}
+	sort.Strings(ks)
 	if anything {
-		savePriv := fv.private
-		fv.private = "" // the loop body itself may write the private memory
+		// callees with unknown effects cannot reach the private memory; the
+		// loop's own stores (visible in its SSA) are havocked by shape below
 		fv.havocAll(st, fmt.Sprintf("loop %d of %s contains calls with unknown effects", l.ord, funcKey(in.fn)))
-		fv.private = savePriv
-	} else {
-		var ks []string
-		for k := range keys {
-			ks = append(ks, k)
+		for _, k := range ks {
+			w := keys[k]
+			fv.havocHeap(st, k, w.sort, w.pred, nil)
 		}
-		sort.Strings(ks)
+	} else {
 		for _, k := range ks {
 			w := keys[k]
 			lr := in.loopRegion(k)
